@@ -299,8 +299,10 @@ func doFile(path string) error {
 			})
 		}
 	}
+	// clock seam: time.Now & co. -> verif/simrt/simtime (see that package)
+	retimed := retime(f)
 	// logrus -> stateless stub (see verif/stublog)
-	relogged := false
+	relogged := retimed
 	for _, im := range f.Imports {
 		if im.Path.Value == `"github.com/sirupsen/logrus"` {
 			im.Path.Value = `"verif/stublog"`
@@ -314,6 +316,7 @@ func doFile(path string) error {
 		return nil
 	}
 	if r.n == 0 {
+		addUseGuards(f)
 		var buf bytes.Buffer
 		cfg := printer.Config{Mode: printer.UseSpaces | printer.TabIndent, Tabwidth: 8}
 		if err := cfg.Fprint(&buf, fset, f); err != nil {
@@ -326,12 +329,95 @@ func doFile(path string) error {
 		&ast.ImportSpec{Name: ast.NewIdent("simrt"), Path: &ast.BasicLit{Kind: token.STRING, Value: `"verif/simrt"`}},
 	}}
 	f.Decls = append([]ast.Decl{imp}, f.Decls...)
+	addUseGuards(f)
 	var buf bytes.Buffer
 	cfg := printer.Config{Mode: printer.UseSpaces | printer.TabIndent, Tabwidth: 8}
 	if err := cfg.Fprint(&buf, fset, f); err != nil {
 		return err
 	}
 	return os.WriteFile(path, buf.Bytes(), 0o644)
+}
+
+// timeFuncs are the members of package time that read the clock or create
+// timers; contextFuncs the members of package context that do.
+var timeFuncs = map[string]bool{"Now": true, "Since": true, "Until": true, "Sleep": true, "After": true, "AfterFunc": true,
+	"NewTimer": true, "NewTicker": true, "Tick": true, "Timer": true, "Ticker": true}
+var contextFuncs = map[string]bool{"WithTimeout": true, "WithDeadline": true}
+
+var pendingGuards []string
+
+// retime points every use of the clock at verif/simrt/simtime. The imports of
+// time / context stay (types like time.Duration are still used); a blank use
+// keeps them legal when nothing else refers to them any more.
+func retime(f *ast.File) bool {
+	names := map[string]map[string]bool{}
+	for _, im := range f.Imports {
+		var set map[string]bool
+		local := ""
+		switch im.Path.Value {
+		case `"time"`:
+			set, local = timeFuncs, "time"
+		case `"context"`:
+			set, local = contextFuncs, "context"
+		default:
+			continue
+		}
+		if im.Name != nil {
+			local = im.Name.Name
+		}
+		if local == "_" || local == "." {
+			continue
+		}
+		names[local] = set
+	}
+	if len(names) == 0 {
+		return false
+	}
+	changed := false
+	ast.Inspect(f, func(n ast.Node) bool {
+		se, ok := n.(*ast.SelectorExpr)
+		if !ok {
+			return true
+		}
+		id, ok := se.X.(*ast.Ident)
+		if !ok || id.Obj != nil {
+			return true
+		}
+		if set, ok := names[id.Name]; ok && set[se.Sel.Name] {
+			id.Name = "verifsimtime"
+			changed = true
+		}
+		return true
+	})
+	if !changed {
+		return false
+	}
+	pendingGuards = nil
+	for local, set := range names {
+		if set["Now"] {
+			pendingGuards = append(pendingGuards, local+".Duration")
+		} else {
+			pendingGuards = append(pendingGuards, local+".Context")
+		}
+	}
+	sort.Strings(pendingGuards)
+	imp := &ast.GenDecl{Tok: token.IMPORT, Specs: []ast.Spec{
+		&ast.ImportSpec{Name: ast.NewIdent("verifsimtime"), Path: &ast.BasicLit{Kind: token.STRING, Value: `"verif/simrt/simtime"`}},
+	}}
+	f.Decls = append([]ast.Decl{imp}, f.Decls...)
+	return true
+}
+
+// addUseGuards appends `var _ time.Duration` style declarations for the
+// imports retime may have left without any other use.
+func addUseGuards(f *ast.File) {
+	for _, g := range pendingGuards {
+		parts := strings.SplitN(g, ".", 2)
+		f.Decls = append(f.Decls, &ast.GenDecl{Tok: token.VAR, Specs: []ast.Spec{
+			&ast.ValueSpec{Names: []*ast.Ident{ast.NewIdent("_")}, Type: &ast.SelectorExpr{X: ast.NewIdent(parts[0]), Sel: ast.NewIdent(parts[1])}},
+		}})
+	}
+	pendingGuards = nil
 }
 
 // writeState generates zz_verif_state.go in a package directory: an init()
